@@ -264,7 +264,7 @@ func c20Tokens(tp *Tape, env *Env) (*Plan, *Violation) {
 	cfg := &GenCfg{
 		MaxNodes: 2, MaxStmts: 4, MaxDepth: 4, MaxTotal: tp.Int(3, 30, "size"),
 		WLine: 6, WOptions: 8, WIf: 5, WSet: 1, WJump: 1, WCommand: 1,
-		NVars: [3]int{1, 1, 0}, ExprDepth: 1, InlinePct: 10, TagPct: 10, CondPct: 10, NoDeclarePrelude: true,
+		NVars: [3]int{1, 1, 0}, ExprDepth: 1, InlinePct: 10, TagPct: 10, CondPct: 10, NoDeclarePrelude: true, NoLongLines: true,
 		Handlers: []HandlerSpec{{Name: "c0", Shape: "raw_prefilled"}},
 	}
 	g := &gen{tp: tp, cfg: cfg}
